@@ -98,6 +98,11 @@ func (w *World) verifyFunc(fn *ssa.Function, c *FuncContract) (x *Exec, err erro
 	o := x.obligation(st, "cover", x.curFunc+":pre:cover", TFalse, c.Props, "precondition satisfiable", "")
 	o.Cover = true
 	x.runBody(fr, st)
+	for _, cl := range c.Clauses {
+		if cl.Kind == "atcall" && x.atcallHits[cl] == 0 {
+			x.unsupported(fmt.Sprintf("atcall clause [%s] on %s was checked at no call site", cl.Name, cl.Opt))
+		}
+	}
 	// postconditions at every return point
 	nret := 0
 	for _, r := range fr.rets {
